@@ -191,10 +191,22 @@ where
 
                 let mut target = target.additional();
                 if let Some(opt) = source.opt() {
-                    if let Err(err) = target.push(opt.as_record()) {
-                        warn!(
-                            "Error while truncating response: unable to push OPT record: {err}"
-                        );
+                    // The OPT record of the response is kept as it is
+                    // unless it cannot be pushed or makes the truncated
+                    // response longer than what is allowed.
+                    let keep_opt = match target.push(opt.as_record()) {
+                        Ok(()) => {
+                            target.as_slice().len() <= max_response_size
+                        }
+                        Err(err) => {
+                            warn!(
+                                "Error while truncating response: unable to push OPT record: {err}"
+                            );
+                            false
+                        }
+                    };
+                    if !keep_opt {
+                        target.rewind();
                         // As the client had an OPT record and RFC 6891 says
                         // when truncating that there MUST be an OPT record,
                         // attempt to push just the empty OPT record (as the
